@@ -336,6 +336,21 @@ func (b *band) AddChannel(frequency uint32, minDR, maxDR int) error {
 		return errors.New("lorawan/band: band does not support extra channels")
 	}
 
+	// the data-rate range must consist of uplink data-rates of this band
+	for _, dr := range []int{minDR, maxDR} {
+		if d, ok := b.dataRates[dr]; !ok || !d.uplink {
+			return fmt.Errorf("lorawan/band: invalid uplink data-rate: %d", dr)
+		}
+	}
+	if minDR > maxDR {
+		return errors.New("lorawan/band: min data-rate must not be higher than max data-rate")
+	}
+	for dr := minDR; dr <= maxDR; dr++ {
+		if d, ok := b.dataRates[dr]; !ok || !d.uplink {
+			return fmt.Errorf("lorawan/band: invalid uplink data-rate: %d", dr)
+		}
+	}
+
 	c := Channel{
 		Frequency: frequency,
 		MinDR:     minDR,
